@@ -2,7 +2,7 @@
 
   * optimize_or        -> Gen/SymbolicDecisions.v : optimize_or  (ElseIf vs Union)
   * the _invert_ table -> Gen/SymbolicDecisions.v : invert        (what not_() builds for each node class)
-  * not_ / and_ / or_  (entity.py): checked to be `operand._invert_()`, chained_logic(AND, ..), chained_logic(optimize_or, ..)
+  * not_ / and_ / or_  (entity.py): checked to be `operand._invert_()`, chained_logic(AND, ..), chained_logic(optimize_or, ..) over the conditions wrapped by _as_condition
   * chained_logic      : checked to be the left fold
 
 The generated definitions are proved equal to the hand-written smart constructors mk_or / mk_not of Eql/Syntax.v
@@ -138,7 +138,12 @@ def translate_invert(repo: str) -> str:
     for fname, arg in (("and_", "AND"), ("or_", "optimize_or")):
         g = _find_func(etree, fname, epath)
         body = _strip_doc(g.body)
-        _expect(len(body) == 1 and ast.unparse(body[0]) == f"return chained_logic({arg}, *conditions)", epath, g, fname)
+        # plain values given as conditions (bool constants) become Literals first (krrood 482b540); a Literal is an operand
+        # of the model's syntax, so the fold over the wrapped conditions is the fold the model describes
+        _expect(len(body) == 1 and ast.unparse(body[0]) == f"return chained_logic({arg}, *map(_as_condition, conditions))", epath, g, fname)
+    ac = _find_func(etree, "_as_condition", epath)
+    _expect("\n".join(ast.unparse(s) for s in _strip_doc(ac.body)) ==
+            "if not isinstance(condition, SymbolicExpression):\n    condition = Literal(condition)\nreturn condition", epath, ac, "_as_condition")
     spath, stree = _src(repo, "src/krrood/entity_query_language/symbolic.py")
     cl = _find_func(stree, "chained_logic", spath)
     body = "\n".join(ast.unparse(s) for s in _strip_doc(cl.body))
